@@ -597,3 +597,429 @@ def c13_5(I, shape):
                     CipherSuite.TLS_AES_128_GCM_SHA256 or
                     bool(tj.creation_time + lifetime < now),
                     "usable-earlier-ticket-not-skipped")
+
+
+# ---------------------------------------------------------------------------
+# C13.6  TLS 1.3 ticket resumption between two live endpoints
+# ---------------------------------------------------------------------------
+from models import pair as P
+from models.hashmodel import SIZES as HSIZES
+
+PAIR_RND13 = P.RandomSource(None)
+PAIR_RND13C = P.RandomSource(None, concrete=True)
+
+
+class Clock(object):
+    """stands for the module `time` inside tlsconnection / tlsrecordlayer"""
+
+    def __init__(self):
+        self.now = 1700000000.0
+
+    def time(self):
+        return self.now
+
+
+CLOCK = Clock()
+
+
+def _rnd13(shape):
+    """symbolic randoms, except where a ticket byte is enumerated (fixed
+    randoms keep each of those paths cheap)"""
+    return PAIR_RND13C if shape.get("second") == "ticket-byte" \
+        else PAIR_RND13
+
+
+def _pair_patches13(shape):
+    rnd = _rnd13(shape)
+    P.ModelKEX.rnd = rnd
+    import tlslite.tlsrecordlayer as trl_
+    st = P.pair12_stubs(rnd)
+    st += [(tc, "time", CLOCK), (trl_, "time", CLOCK),
+           (tc, "getRandomNumber", lambda lo, hi: 1234),
+           (tc, "createAESGCM", P._mk_aead("aes%dgcm")),
+           (tc, "createCHACHA20", P._mk_aead("chacha20-poly1305")),
+           (tc, "createAESCCM", P._mk_aead("aes%dccm")),
+           (tc, "createAESCCM_8", P._mk_aead("aes%dccm_8"))]
+    return (P.pair_proxies(), st)
+
+
+def _shapes_c13_6(tier):
+    out = []
+    for auth in ("cert", "cert+client"):
+        for second in ("honest", "rotated", "rotated-kept",
+                       "other-suite", "client-expired", "psk-ke-only"):
+            out.append(dict(auth=auth, second=second))
+        for k in range(8):
+            out.append(dict(auth=auth, second="ticket-byte", chunk=k))
+    return out
+
+
+@obligation("C13.6", _shapes_c13_6,
+            functions=["tlslite.tlsconnection:TLSConnection."
+                       "_serverSendTickets",
+                       "tlslite.tlsconnection:TLSConnection._tryDecrypt",
+                       "tlslite.tlsconnection:TLSConnection._derive_key_iv",
+                       "tlslite.tlsconnection:TLSConnection."
+                       "_serverTLS13Handshake",
+                       "tlslite.tlsconnection:TLSConnection."
+                       "_clientTLS13Handshake",
+                       "tlslite.tlsconnection:TLSConnection."
+                       "_clientSendClientHello",
+                       "tlslite.tlsrecordlayer:TLSRecordLayer.readAsync",
+                       "tlslite.handshakehelpers:HandshakeHelpers."
+                       "calc_res_binder_psk",
+                       "tlslite.handshakehelpers:HandshakeHelpers."
+                       "update_binders",
+                       "tlslite.handshakehelpers:HandshakeHelpers."
+                       "verify_binder",
+                       "tlslite.messages:SessionTicketPayload",
+                       "tlslite.messages:NewSessionTicket"],
+            assumes=P.PAIR_ASSUMES + [
+                "two consecutive connections between one client and one "
+                "server configuration; ticket encryption through the AEAD "
+                "model (ciphertext integrity assumed); the clock is a stub "
+                "(fixed instant, advanced only in the client-expired "
+                "shape); ticket_age_add fixed; one ticket per connection",
+                "second connection: honest | one symbolic byte of the stored "
+                "ticket rewritten | server ticket key rotated (old key "
+                "dropped / kept as second) | client offers a suite with "
+                "another hash | client-side expiry | server allows psk_ke "
+                "only while the client offers psk_dhe_ke"],
+            patches=_pair_patches13, max_paths=600, timeout=(600, 1800),
+            also=("C03", "C09"))
+def c13_6(I, shape):
+    """a TLS 1.3 ticket resumes exactly when it is intact, issued under a
+    current key and compatible with the new hello; the resumed connection
+    derives its keys from the resumption PSK of the first one and keeps the
+    suite and the authenticated client identity; otherwise a full handshake
+    completes"""
+    from symx.uf import assume_collision_free
+    auth, second = shape["auth"], shape["second"]
+    CLOCK.now = 1700000000.0
+    key1 = bytearray(b"K" * 32)
+    key2 = bytearray(b"R" * 32)
+    cset = P.settings13()
+    sset = P.settings13(ticketKeys=[key1], ticket_count=1)
+    client_auth = auth == "cert+client"
+    sc = P.Scenario(I, _rnd13(shape), cset, sset, server_cred="rsa",
+                    client_cred="ecdsa" if client_auth else None,
+                    req_cert=client_auth, intctxt=True)
+    sc.run()
+    I.check(sc.both_completed(), "first-handshake-completes",
+            detail=lambda: dict(c=repr(sc.cep.error), s=repr(sc.sep.error),
+                                crash=sc.cep.crash or sc.sep.crash))
+    if not sc.both_completed():
+        return
+    c1, s1 = sc.c, sc.s
+    # the client picks up the ticket
+    for r in c1.readAsync(max=1, min=0):
+        if r in (0, 1) and isinstance(r, int):
+            break
+    sess = c1.session
+    I.check(len(sess.tickets) == 1, "client-holds-one-ticket",
+            detail=lambda: dict(n=len(sess.tickets)))
+    if len(sess.tickets) != 1:
+        return
+    view1 = P.WireView(sc.wire)
+    alg, n = "sha256", 32
+    ref1 = P.Schedule13(alg, None, P.ModelKEX.log[0][3], view1)
+    I.check(seq_eq(list(sess.resumptionMasterSecret), ref1.res),
+            "first-resumption-master-secret-is-rfc8446-value")
+    nst = sess.tickets[0]
+    psk_ref = P.hkdf_expand_label(alg, ref1.res, b"resumption",
+                                  list(nst.ticket_nonce), n)
+    # ---- second connection ----
+    expect_resume = second in ("honest", "rotated-kept")
+    cset2 = P.settings13()
+    sset2 = P.settings13(ticketKeys=[key1], ticket_count=1)
+    if second == "ticket-byte":
+        step = 7 if shape.get("tier") != "thorough" else 1
+        cands = list(range(0, len(nst.ticket), 7))[shape["chunk"]::8]
+        pos = I.pick(cands, "ticket_pos")
+        v = I.byte("ticket_v")
+        t = newbuf(list(nst.ticket))
+        assume(v != t[pos])
+        t[pos] = v
+        nst.ticket = t
+    elif second == "rotated":
+        sset2.ticketKeys = [key2]
+    elif second == "rotated-kept":
+        sset2.ticketKeys = [key2, key1]
+    elif second == "other-suite":
+        cset2 = P.settings13("aes256gcm")
+        sset2 = P.settings13("aes256gcm", ticketKeys=[key1], ticket_count=1)
+    elif second == "client-expired":
+        CLOCK.now += nst.ticket_lifetime + 1
+    elif second == "psk-ke-only":
+        cset2.psk_modes = ["psk_dhe_ke"]
+        sset2.psk_modes = ["psk_ke"]
+    ndh = len(P.ModelKEX.log)
+    sc2 = P.Scenario(I, _rnd13(shape), cset2, sset2, server_cred="rsa",
+                     client_cred="ecdsa" if client_auth else None,
+                     req_cert=client_auth, intctxt=True, reset=False)
+    sc2.client_kwargs["session"] = sess
+    sc2.run()
+    for ep, nm in ((sc2.cep, "client"), (sc2.sep, "server")):
+        I.check(ep.crash is None, "no-raw-exception-from-the-handshake",
+                detail=lambda: dict(side=nm, tb=ep.crash))
+    assume_collision_free(["HASH_", "HMAC_"], ("HMAC_",), trunc=16)
+    if second == "psk-ke-only" and not sc2.both_completed():
+        # a valid ticket whose only common PSK mode is missing: tlslite-ng
+        # answers handshake_failure instead of a certificate handshake
+        # (RFC 8446 4.2.11 "SHOULD perform a non-PSK handshake"); the
+        # property sentence does not cover configuration mismatches, so only
+        # a clean refusal on both sides is required here
+        I.check(not sc2.completed(sc2.cep) and not sc2.completed(sc2.sep),
+                "a-refused-resumption-fails-on-both-sides")
+        I.cover("psk-mode-mismatch-refused")
+        return
+    I.check(sc2.both_completed(),
+            "second-connection-completes-resumed-or-full",
+            detail=lambda: dict(c=repr(sc2.cep.error), s=repr(sc2.sep.error)))
+    if not sc2.both_completed():
+        return
+    c2, s2 = sc2.c, sc2.s
+    view2 = P.WireView(sc2.wire)
+    sh = [b for w, t, b in view2.msgs if w == "s" and
+          t == HandshakeType.server_hello][0]
+    import tlslite.messages as M_
+    from tlslite.utils.codec import Parser as Parser_
+    shm = M_.ServerHello().parse(Parser_(newbuf(sh[1:])))
+    selected = shm.getExtension(ExtensionType.pre_shared_key) is not None
+    I.check(selected == expect_resume, "psk-selected-exactly-when-expected",
+            detail=lambda: dict(selected=selected, second=second))
+    I.check(c2.resumed == selected, "client-resumed-flag-matches-the-wire")
+    alg2 = "sha384" if second == "other-suite" else "sha256"
+    shared2 = P.ModelKEX.log[ndh][3] if len(P.ModelKEX.log) > ndh else None
+    ref2 = P.Schedule13(alg2, psk_ref if selected else None, shared2, view2)
+    for name, attr, want in (
+            ("client-app-traffic-secret", "cl_app_secret", ref2.c_ap),
+            ("server-app-traffic-secret", "sr_app_secret", ref2.s_ap),
+            ("exporter-master-secret", "exporterMasterSecret", ref2.exp),
+            ("resumption-master-secret", "resumptionMasterSecret", ref2.res)):
+        a = list(getattr(c2.session, attr))
+        b = list(getattr(s2.session, attr))
+        I.check(len(a) == len(b) and seq_eq(a, b), "second-" + name +
+                "-agreed")
+        I.check(len(a) == len(want) and seq_eq(a, want),
+                "second-" + name + "-is-rfc8446-value-over-resumption-psk")
+    I.check(c2.session.cipherSuite == s2.session.cipherSuite,
+            "second-suite-agreed")
+    if selected:
+        I.check(c2.session.cipherSuite == sess.cipherSuite,
+                "resumed-connection-keeps-the-suite")
+        certs = [t for w, t, b in view2.msgs
+                 if t == HandshakeType.certificate]
+        I.check(certs == [], "no-certificate-in-a-resumed-handshake")
+        if client_auth:
+            I.check(s2.session.clientCertChain is not None and
+                    P.fp(s2.session.clientCertChain) == P.fp(sc.cli_chain),
+                    "resumed-connection-keeps-the-client-identity")
+        else:
+            I.check(s2.session.clientCertChain is None,
+                    "no-client-identity-invented")
+    else:
+        I.check(P.fp(c2.session.serverCertChain) == P.fp(sc.srv_chain),
+                "full-handshake-authenticated-the-server-again")
+
+
+# ---------------------------------------------------------------------------
+# C13.7  TLS <= 1.2 resumption (session ID / session ticket) between two live
+#        endpoints
+# ---------------------------------------------------------------------------
+from tlslite.sessioncache import SessionCache
+
+
+def _pair_patches13c(shape):
+    P.ModelKEX.rnd = PAIR_RND13C
+    import tlslite.tlsrecordlayer as trl_
+    st = P.pair12_stubs(PAIR_RND13C)
+    st += [(tc, "time", CLOCK), (trl_, "time", CLOCK),
+           (tc, "getRandomNumber", lambda lo, hi: 1234),
+           (tc, "createAESGCM", P._mk_aead("aes%dgcm")),
+           (tc, "createCHACHA20", P._mk_aead("chacha20-poly1305")),
+           (tc, "createAESCCM", P._mk_aead("aes%dccm")),
+           (tc, "createAESCCM_8", P._mk_aead("aes%dccm_8"))]
+    return (P.pair_proxies(), st)
+
+
+def _shapes_c13_7(tier):
+    out = []
+    for how in ("id", "ticket"):
+        for version in ((3, 3), (3, 1)):
+            for second in ("honest", "unknown", "other-suite", "ems-dropped",
+                           "etm-dropped", "sni-changed", "ticket-byte",
+                           "rotated"):
+                if how == "id" and second in ("ticket-byte", "rotated"):
+                    continue
+                if version == (3, 1) and second not in ("honest", "unknown",
+                                                        "ticket-byte"):
+                    continue
+                out.append(dict(how=how, version=list(version),
+                                second=second))
+    return out
+
+
+@obligation("C13.7", _shapes_c13_7,
+            functions=["tlslite.tlsconnection:TLSConnection."
+                       "_serverGetClientHello",
+                       "tlslite.tlsconnection:TLSConnection._clientResume",
+                       "tlslite.tlsconnection:TLSConnection."
+                       "_clientGetServerHello",
+                       "tlslite.tlsconnection:TLSConnection."
+                       "_ticket_to_session",
+                       "tlslite.tlsconnection:TLSConnection."
+                       "_serverSendTickets",
+                       "tlslite.tlsconnection:TLSConnection._getFinished",
+                       "tlslite.tlsconnection:TLSConnection._sendFinished",
+                       "tlslite.sessioncache:SessionCache.__getitem__",
+                       "tlslite.sessioncache:SessionCache.__setitem__"],
+            assumes=P.PAIR_ASSUMES + [
+                "fixed randoms and session ids (a symbolic session id would "
+                "be concretised by the session cache's dictionary)",
+                "two consecutive connections, ECDHE_RSA with AES-128-CBC-SHA "
+                "(EtM and EMS on) between one client and one server "
+                "configuration; server: real SessionCache or ticket keys; "
+                "second connection: honest | session id / ticket unknown to "
+                "the server | client offers another suite only | client "
+                "drops extended_master_secret | client drops "
+                "encrypt_then_mac | other server name | one symbolic ticket "
+                "byte rewritten | ticket key rotated"],
+            patches=_pair_patches13c, max_paths=600, timeout=(600, 1800),
+            also=("C03",))
+def c13_7(I, shape):
+    """a TLS <= 1.2 session resumes only when the ClientHello is consistent
+    with it; the resumed connection has the original master secret, suite,
+    EMS and EtM properties; anything else ends in a full handshake or a
+    clean alert - never in a resumed connection with weaker properties"""
+    version = tuple(shape["version"])
+    how, second = shape["how"], shape["second"]
+    CLOCK.now = 1700000000.0
+    key1, key2 = bytearray(b"K" * 32), bytearray(b"R" * 32)
+
+    def mk(cipher="aes128", **kw):
+        return P.settings12(version, "ecdhe_rsa", cipher, "sha", **kw)
+    cache = SessionCache() if how == "id" else None
+    tk = dict(ticketKeys=[key1], ticket_count=1) if how == "ticket" else {}
+    sc = P.Scenario(I, PAIR_RND13C, mk(), mk(**tk), server_cred="rsa",
+                    intctxt=True)
+    sc.server_kwargs["sessionCache"] = cache
+    sc.client_kwargs["serverName"] = "host.example"
+    sc.run()
+    I.check(sc.both_completed(), "first-handshake-completes",
+            detail=lambda: dict(c=repr(sc.cep.error), s=repr(sc.sep.error),
+                                crash=sc.cep.crash or sc.sep.crash))
+    if not sc.both_completed():
+        return
+    sess = sc.c.session
+    ms1 = list(sess.masterSecret)
+    I.check(seq_eq(ms1, list(sc.s.session.masterSecret)),
+            "first-master-secret-agreed")
+    if how == "ticket":
+        I.check(len(sess.tls_1_0_tickets) == 1, "client-holds-one-ticket")
+        if len(sess.tls_1_0_tickets) != 1:
+            return
+    else:
+        I.check(len(sess.sessionID) > 0, "client-holds-a-session-id")
+    ems1, etm1, suite1 = sess.extendedMasterSecret, sess.encryptThenMAC, \
+        sess.cipherSuite
+    I.check(ems1 and etm1, "first-connection-negotiated-ems-and-etm")
+    expect_resume = second == "honest"
+    cset2, sset2 = mk(), mk(**tk)
+    sname2 = "host.example"
+    if second == "unknown":
+        if how == "id":
+            cache = SessionCache()
+        else:
+            sset2.ticketKeys = [key2]
+    elif second == "rotated":
+        sset2.ticketKeys = [key2, key1]
+        expect_resume = True
+    elif second == "other-suite":
+        cset2 = mk("aes256")
+        sset2 = P.settings12(version, "ecdhe_rsa", "aes128", "sha", **tk)
+        sset2.cipherNames = ["aes128", "aes256"]
+    elif second == "ems-dropped":
+        cset2.useExtendedMasterSecret = False
+        cset2.requireExtendedMasterSecret = False
+    elif second == "etm-dropped":
+        cset2.useEncryptThenMAC = False
+    elif second == "sni-changed":
+        sname2 = "other.example"
+    elif second == "ticket-byte":
+        tkt = sess.tls_1_0_tickets[0]
+        pos = I.pick(list(range(0, len(tkt.ticket), 9)), "ticket_pos")
+        v = I.byte("ticket_v")
+        t = newbuf(list(tkt.ticket))
+        assume(v != t[pos])
+        t[pos] = v
+        tkt.ticket = t
+    sc2 = P.Scenario(I, PAIR_RND13C, cset2, sset2, server_cred="rsa",
+                     intctxt=True, reset=False)
+    sc2.server_kwargs["sessionCache"] = cache
+    sc2.client_kwargs["serverName"] = sname2
+    sc2.client_kwargs["session"] = sess
+    sc2.run()
+    from symx.uf import assume_collision_free
+    assume_collision_free(["HASH_", "HMAC_"], ("HMAC_",), trunc=16)
+    if isinstance(sc2.cep.error, ValueError) and \
+            not any(w == "c" for w, d in sc2.wire.log):
+        # handshakeClientCert() refuses a session that does not fit its own
+        # arguments before anything is sent (documented ValueError)
+        I.check(second in ("other-suite", "sni-changed"),
+                "client-api-refuses-only-inconsistent-sessions")
+        I.cover("client-api-refused")
+        return
+    for ep, nm in ((sc2.cep, "client"), (sc2.sep, "server")):
+        I.check(ep.crash is None, "no-raw-exception-from-the-handshake",
+                detail=lambda: dict(side=nm, tb=ep.crash))
+    c2, s2 = sc2.c, sc2.s
+    if not sc2.both_completed():
+        # a clean refusal is allowed only where the RFCs demand an alert
+        I.check(second in ("ems-dropped", "etm-dropped", "sni-changed",
+                           "other-suite"),
+                "second-connection-completes-resumed-or-full",
+                detail=lambda: dict(c=repr(sc2.cep.error),
+                                    s=repr(sc2.sep.error)))
+        I.check(not sc2.completed(sc2.cep) and not sc2.completed(sc2.sep),
+                "a-refused-resumption-fails-on-both-sides")
+        return
+    view2 = P.WireView12(sc2.wire)
+    full = any(t == HandshakeType.server_hello_done
+               for w, t, b in view2.msgs)
+    I.check(c2.resumed == s2.resumed == (not full),
+            "resumed-flags-match-the-wire")
+    I.check((not full) == expect_resume or not expect_resume,
+            "resumed-when-expected",
+            detail=lambda: dict(full=full, second=second))
+    if not expect_resume:
+        I.check(full, "inconsistent-hello-never-resumes",
+                detail=lambda: dict(second=second))
+    ms2c, ms2s = list(c2.session.masterSecret), list(s2.session.masterSecret)
+    I.check(seq_eq(ms2c, ms2s), "second-master-secret-agreed")
+    if not full:
+        I.check(seq_eq(ms2c, ms1), "resumed-master-secret-is-the-original")
+        I.check(c2.session.cipherSuite == s2.session.cipherSuite == suite1,
+                "resumed-suite-is-the-original")
+        I.check(c2.session.extendedMasterSecret ==
+                s2.session.extendedMasterSecret == ems1,
+                "resumed-ems-is-the-original",
+                detail=lambda: dict(c=c2.session.extendedMasterSecret,
+                                    s=s2.session.extendedMasterSecret,
+                                    first=ems1))
+        I.check(c2._recordLayer.encryptThenMAC ==
+                s2._recordLayer.encryptThenMAC == etm1,
+                "resumed-etm-is-the-original")
+        I.check(s2.session.serverName == "host.example",
+                "resumed-server-name-is-the-original")
+    for src, dst, msg in ((c2, s2, b"ping"), (s2, c2, b"pong!")):
+        for r in src.writeAsync(bytearray(msg)):
+            pass
+        got = None
+        for r in dst.readAsync(max=16, min=len(msg)):
+            if r in (0, 1) and isinstance(r, int):
+                break
+            got = r
+        I.check(got is not None and bytes(got) == msg,
+                "application-data-delivered-intact",
+                detail=lambda: dict(got=repr(got)))
